@@ -144,7 +144,7 @@ REGISTRY = {
             "C14_gen_len_eq_model", "C14_gen_is_empty_eq_model", "C14_add_event_generated", "C14_pop_event_generated",
             "C14_gen_peak_ahead_eq_model",
             "C14_gen_run_next_event_eq_model", "C14_gen_run_next_event_guard", "C14_run_next_event_generated",
-            "C14_gen_run_until_eq_model", "C14_gen_run_until_guard")],
+            "C14_gen_run_until_eq_model", "C14_gen_run_until_guard", "C14_run_until_generated")],
     },
     "C15": {
         "groups": ["Devs"],
